@@ -106,7 +106,15 @@ let rec run_case (kind : string) (body : sexp list) : string * string =
         then (let evs = List.filter (function ZUnsub -> false | _ -> true) sts in
               if List.length evs < List.length sts then evs @ [ZUnsub] else evs)
         else sts in
-      (show_segs (run_finalize_segs sh sts), "UNSPECIFIED")
+      let connected = (match atom (List.nth body 1) with "never" | "dead" -> false | _ -> true) in
+      (show_segs (run_finalize_segs_from connected sh sts), "UNSPECIFIED")
+  | "tree" ->
+      (* (tree FORM PIPE (stims (I EV)...) [idiom]) *)
+      let p = pipe_of (List.nth body 1) in
+      let sts = List.map stim_of (args (List.nth body 2)) in
+      let t = exec p sts in
+      let t = (match List.nth_opt body 3 with Some (Atom "idiom") -> idiom_log true t | _ -> t) in
+      (show_trace t, show_trace t)
   | "retire" ->
       (* (retire FORM PRODUCER POSITION (ops U...) [(stims ...)]) *)
       let prod = List.nth body 1 and pos = List.nth body 2 in
@@ -241,6 +249,10 @@ let oracle (kind : string) (body : sexp list) (impl : string) : string option =
        | S (S O) -> Some "reject:C17 a leaf appended to an unsubscribed composite (or held by an unsubscribed subscription) was left running"
        | S (S (S O)) -> Some "known:reopened is_closed() answered true and later false (a composite that was never unsubscribed re-opened by append)"
        | _ -> Some "reject:C17 is_closed() answered true and later false")
+  | "tree" ->
+      if String.length impl >= 5 && String.sub impl 0 5 = "PANIC" then Some "reject:panic" else
+      let t = (match parse ("(" ^ impl ^ ")") with List l -> List.map ev_of l | _ -> []) in
+      if wf t then Some "ok" else Some "reject:C01 a notification after the terminal, or a second terminal"
   | "finalize" ->
       if String.length impl >= 5 && String.sub impl 0 5 = "PANIC" then Some "reject:panic" else
       let sh = fshape_of (atom (List.nth body 1) = "hot") (List.nth body 2) in
@@ -250,9 +262,10 @@ let oracle (kind : string) (body : sexp list) (impl : string) : string option =
               if List.length evs < List.length sts then evs @ [ZUnsub] else evs)
         else sts in
       let segs = segs_of impl in
-      (match fin_ok false sh fspec0 sts segs with
+      let sp0 = fspec1 (match atom (List.nth body 1) with "never" | "dead" -> false | _ -> true) in
+      (match fin_ok false sh sp0 sts segs with
        | O -> Some "ok"
-       | _ when fin_ok true sh fspec0 sts segs = O ->
+       | _ when fin_ok true sh sp0 sts segs = O ->
            Some "known:downstream-finished finalize followed by take(n) on a subject: the subject's terminal after the take completed is not followed by the callback"
        | S O -> Some "reject:C15 the finalize callback did not run right after the first terminal / unsubscription"
        | S (S O) -> Some "reject:C15 the finalize callback ran before any terminal or unsubscription, or a second time"
